@@ -33,10 +33,55 @@ type c01Held struct {
 	i64  []int32
 	i64t []int32
 	i128 []int32
+	flip bool
 }
 
 func c01Build(ws []uint64) *c01Held {
-	return &c01Held{ws, bitmap.IndexRank64(ws), bitmap.IndexRank64(ws, true), bitmap.IndexRank128(ws)}
+	return &c01Held{ws, bitmap.IndexRank64(ws), bitmap.IndexRank64(ws, true), bitmap.IndexRank128(ws), false}
+}
+
+// rebuild re-indexes the SAME backing slice after an in-place change. The order of the two IndexRank64 calls
+// alternates, so that every other rebuild starts with the flavour that was built last (a memo of "the index
+// built last", keyed by the slice, then sees the same key with different contents).
+func (h *c01Held) rebuild() {
+	if h.flip {
+		h.i64 = bitmap.IndexRank64(h.ws)
+		h.i64t = bitmap.IndexRank64(h.ws, true)
+	} else {
+		h.i64t = bitmap.IndexRank64(h.ws, true)
+		h.i64 = bitmap.IndexRank64(h.ws)
+	}
+	h.i128 = bitmap.IndexRank128(h.ws)
+	h.flip = !h.flip
+}
+
+// c01Expand expands [[count, word], ...]
+func c01Expand(v V) []uint64 {
+	var ws []uint64
+	for _, r := range v.L {
+		n, w := r.L[0].Int(), r.L[1].U64()
+		for k := 0; k < n; k++ {
+			ws = append(ws, w)
+		}
+	}
+	return ws
+}
+
+type c01Run struct {
+	n int
+	w uint64
+}
+
+func c01Rle(runs []c01Run) (string, []uint64) {
+	var parts []string
+	var ws []uint64
+	for _, r := range runs {
+		parts = append(parts, L(Int(r.n), U(r.w)))
+		for k := 0; k < r.n; k++ {
+			ws = append(ws, r.w)
+		}
+	}
+	return L(parts...), ws
 }
 
 func (h *c01Held) query(f int, i int32) string {
@@ -91,6 +136,13 @@ func init() {
 		ws := a[0].U64s()
 		return L(I32s(bitmap.IndexRank64(ws)), I32s(bitmap.IndexRank64(ws, true)), I32s(bitmap.IndexRank128(ws)))
 	}
+	Exec["bitmap.IndexRank/rle"] = func(a []V) string {
+		ws := c01Expand(a[0])
+		return L(I32s(bitmap.IndexRank64(ws)), I32s(bitmap.IndexRank64(ws, true)), I32s(bitmap.IndexRank128(ws)))
+	}
+	Exec["bitmap.Rank/rle"] = func(a []V) string {
+		return c01Query(c01Expand(a[0]), a[1].Int(), a[2].I32())
+	}
 	// history: every bitmap and its three indexes are built up front and HELD; steps query them in any
 	// order or overwrite one word in place and rebuild that bitmap's indexes
 	Exec["bitmap.Rank/history"] = func(a []V) string {
@@ -105,7 +157,7 @@ func init() {
 			} else {
 				h := hs[s.L[1].Int()]
 				h.ws[s.L[2].Int()] = s.L[3].U64()
-				*h = *c01Build(h.ws)
+				h.rebuild()
 				out = append(out, I32(h.i64t[len(h.ws)]))
 			}
 		}
@@ -167,11 +219,14 @@ func genC01Wide(g *Gen) {
 		ws  []uint64
 	}
 	var bigs []big
-	for _, n := range []int{16, 17, 33, 130} {
+	dn, sn := []int{17, 130, 530, 1090}, []int{1025, 2049}
+	if g.Thorough {
+		dn, sn = []int{16, 17, 33, 130, 513, 530, 1025, 1090, 2049}, []int{513, 530, 1025, 1090, 2049}
+	}
+	for _, n := range dn {
 		bigs = append(bigs, big{fmt.Sprintf("dense%d", n), c01Dense(g, n)})
 	}
-	for _, n := range []int{513, 530, 1025, 1090, 2049} {
-		bigs = append(bigs, big{fmt.Sprintf("dense%d", n), c01Dense(g, n)})
+	for _, n := range sn {
 		bigs = append(bigs, big{fmt.Sprintf("sparse%d", n), c01Sparse(g, n)})
 	}
 	ones1030 := make([]uint64, 1030)
@@ -179,37 +234,45 @@ func genC01Wide(g *Gen) {
 		ones1030[i] = ^uint64(0)
 	}
 	bigs = append(bigs, big{"ones1030", ones1030})
-	for bi, b := range bigs {
+	for _, b := range bigs {
 		n := len(b.ws)
 		w := U64s(b.ws)
 		// index cases: each costs the spec a pass per entry, so only some bitmaps get them in the quick tier
-		if g.Thorough || n <= 130 || bi%3 == 0 || b.tag == "ones1030" {
-			key := "big/idx/" + b.tag
-			g.Stat("big-index")
+		// index cases: the bit-by-bit specification of the plain ops is quadratic in the length, so those are limited
+		// to 130 words (530 in the thorough tier); the side-by-side op (running sums, linear) takes every size
+		key := "big/idx/" + b.tag
+		g.Stat("big-index")
+		g.Do("bitmap.IndexRank/all", L(w), key)
+		if n <= 130 || (g.Thorough && n <= 530) {
 			g.Do("bitmap.IndexRank64", L(w, "1"), key)
 			g.Do("bitmap.IndexRank128", L(w), key)
-			g.Do("bitmap.IndexRank/all", L(w), key)
 		}
 		// positions: boundaries of the position, and the words where the running count crosses 2^8, 2^15, 2^16
 		var pos []int
 		for _, p := range []int{1 << 8, 1 << 10, 1 << 15, 1 << 16, 1 << 17} {
-			for d := -65; d <= 65; d += 13 {
-				pos = append(pos, p+d)
+			if g.Thorough {
+				for d := -65; d <= 65; d += 13 {
+					pos = append(pos, p+d)
+				}
+				pos = append(pos, p+1, p+63)
 			}
-			pos = append(pos, p-1, p, p+1, p+63, p+64)
+			pos = append(pos, p-1, p, p+64)
 		}
 		cnt := 0
 		for k, x := range b.ws {
 			c2 := cnt + popcount([]uint64{x})
 			for _, t := range []int{1 << 8, 1 << 15, 1 << 16} {
 				if cnt < t && c2 >= t {
-					pos = append(pos, 64*k, 64*k+63, 64*k+64, 64*k+100, 64*k+128, 64*k+191)
+					pos = append(pos, 64*k+63, 64*k+64, 64*k+191)
+					if g.Thorough {
+						pos = append(pos, 64*k, 64*k+100, 64*k+128)
+					}
 				}
 			}
 			cnt = c2
 		}
-		pos = append(pos, 64*n-1, 64*n-64, 64*n-65, 64*n-128)
-		for q := 0; q < g.N(6, 40); q++ {
+		pos = append(pos, 64*n-1, 64*n-65)
+		for q := 0; q < g.N(2, 40); q++ {
 			pos = append(pos, g.R.Intn(64*n))
 		}
 		seen := map[int]bool{}
@@ -225,7 +288,7 @@ func genC01Wide(g *Gen) {
 		}
 		// held indexes of the large bitmap against a decoy of the same length
 		decoy := U64s(c01Sparse(g, n))
-		for q := 0; q < 3; q++ {
+		for q := 0; q < g.N(1, 3); q++ {
 			i := g.R.Intn(64 * n)
 			g.Stat("big-held")
 			g.Do("bitmap.Rank64/held", L(w, B(q&1 == 1), Int(i), decoy), c01BigKey(b.tag[:5], b.ws, i))
@@ -435,6 +498,87 @@ func genC01Wide(g *Gen) {
 		key := fmt.Sprintf("hist/nb%d/sets%d", nb, minInt(sets, 3))
 		g.Stat("history")
 		g.Do("bitmap.Rank/history", L(L(txt...), L(steps...)), key)
+	}
+	// (W7) large run-length encoded bitmaps: 1024 / 1280 / 2048 / 4100 words with an all-zero run aligned to a
+	// 64/128/256/512/1024-word boundary placed after a non-empty prefix (an index built piecewise - per chunk, per
+	// goroutine, per cache line - goes wrong where a piece is empty or where pieces meet); the three indexes side by
+	// side (linear specification) and a few probes right after each run
+	type fam struct{ n, align, start int }
+	var fams []fam
+	for _, n := range []int{1024, 1280, 2048, 4100} {
+		for _, a := range []int{64, 128, 256, 512, 1024} {
+			for st := a; st+a < n; st += a {
+				fams = append(fams, fam{n, a, st})
+			}
+		}
+	}
+	for fi, f := range fams {
+		// quick: every (n, align) with its first and one other start; thorough: all
+		if !g.Thorough && !(f.start == f.align || (f.start/f.align)%5 == 2 || (f.align == 256 && f.start <= 1024)) {
+			continue
+		}
+		var runs []c01Run
+		pre := f.start
+		// non-empty prefix: a few single words and a constant run, then the zero run, then sparse / dense tail
+		runs = append(runs, c01Run{1, g.R.Word() | 1}, c01Run{pre - 2, []uint64{0, 1, 0x8000000000000000, ^uint64(0), g.R.Word()}[g.R.Intn(5)]}, c01Run{1, g.R.Word() | 2})
+		runs = append(runs, c01Run{f.align, 0})
+		rest := f.n - f.start - f.align
+		for rest > 0 {
+			k := g.R.Range(1, minInt(rest, 300))
+			if g.R.Intn(3) == 0 {
+				k = 1
+			}
+			w := []uint64{0, 1, ^uint64(0), g.R.Word(), g.R.Word()}[g.R.Intn(5)]
+			if rest == f.n-f.start-f.align {
+				w |= 4 // the first word after the run is not empty
+			}
+			runs = append(runs, c01Run{k, w})
+			rest -= k
+		}
+		txt, ws := c01Rle(runs)
+		key := fmt.Sprintf("rle/n%d/align%d/start%d", f.n, f.align, minInt(f.start/f.align, 3))
+		g.Stat("rle-index")
+		g.Do("bitmap.IndexRank/rle", L(txt), key)
+		if g.Thorough || fi%4 == 0 || f.align == 256 {
+			end := 64 * (f.start + f.align)
+			for _, i := range []int{end, end + 64*f.align - 1, 64*f.n - 1} {
+				if i >= 64*len(ws) {
+					i = 64*len(ws) - 1
+				}
+				g.Stat("rle-rank")
+				g.Do("bitmap.Rank/rle", L(txt, Int(g.R.Intn(3)), Int(i)), key)
+			}
+		}
+	}
+
+	// (W8) ONE bitmap edited in place: the same backing slice is re-indexed after a MIDDLE word changed while its
+	// first and last words, its length and its address stay what they were; probes around the edited word
+	for k := 0; k < g.N(150, 3000); k++ {
+		n := g.R.Range(3, 12)
+		ws := g.R.Words(n)
+		var steps []string
+		probe := func(i int) {
+			if i < 0 {
+				i = 0
+			}
+			if i >= 64*n {
+				i = 64*n - 1
+			}
+			steps = append(steps, L("0", Int(g.R.Intn(3)), "0", Int(i)))
+		}
+		probe(g.R.Intn(64 * n))
+		ne := g.R.Range(1, 5)
+		for e := 0; e < ne; e++ {
+			kk := g.R.Range(1, n-2)
+			steps = append(steps, L("1", "0", Int(kk), U(g.R.Word())))
+			probe(64*kk + 64)
+			probe(64*n - 1)
+			if g.R.Bool() {
+				probe(64*kk + g.R.Intn(64))
+			}
+		}
+		g.Stat("history-edit-middle")
+		g.Do("bitmap.Rank/history", L(L(U64s(ws)), L(steps...)), fmt.Sprintf("edit/n%d/edits%d", minInt(n, 6), ne))
 	}
 	_ = strings.Join
 }
